@@ -69,6 +69,10 @@ func keyIV(tp *tape.Tape) (key, iv []byte) {
 }
 
 func msgLen(tp *tape.Tape) int {
+	if tp.Bool(1, 25) {
+		// beyond one page / typical batch sizes
+		return 4090 + tp.Choose(16000)
+	}
 	switch tp.Pick(2, 4, 3, 2) {
 	case 0:
 		return tp.Choose(3)
@@ -91,6 +95,9 @@ func callLen(tp *tape.Tape, remaining int) int {
 		n = 1 + tp.Choose(100)
 	default:
 		n = remaining
+	}
+	if remaining > 4096 && tp.Bool(1, 3) {
+		n = remaining - tp.Choose(3) // one long call
 	}
 	if n > remaining {
 		n = remaining
